@@ -46,6 +46,21 @@ class C16(PropBase):
         mach = machine.Machine(ctx.seed, cfg)
         if ctx.doc is None:
             mach.build(cfg["n_spaces"], cfg["n_cells"], cfg["n_refs"])
+            gadget = cfg.get("gadget_uncached_chain") and mach.ref.space("ZU") is None
+            if gadget:
+                # cached elements reached from a cached one through two uncached cells in a row (a recursive chain, so that a
+                # small step size separates the elements)
+                def cells(name, cached, ret):
+                    return {"op": "new_cells", "space": "ZU", "name": name, "is_cached": cached,
+                            "formula": {"style": "lambda", "params": [["x", None]], "ret": ret}}
+                call = lambda n, a=None: ["call", [], n, [a or ["p", "x"]], "pos", ["x"]]
+                for op in ({"op": "new_space", "parent": "", "name": "ZU", "bases": []},
+                           cells("f", True, ["if", ["cmp", "<=", ["p", "x"], ["c", 0]], ["c", 7],
+                                             ["bin", "+", call("f", ["bin", "-", ["p", "x"], ["c", 1]]), ["c", 1]]]),
+                           cells("g", False, ["bin", "+", call("f"), ["c", 1]]),
+                           cells("h", False, ["bin", "*", call("g"), ["c", 2]]),
+                           cells("u", True, ["bin", "+", call("h"), ["c", 3]])):
+                    mach.do(op)
             steps = list(mach.steps)
             for i in range(cfg["n_inputs"]):
                 op = mach.g_set_value()
@@ -60,6 +75,9 @@ class C16(PropBase):
                 q = mach.g_eval()
                 if q and all(isinstance(s, str) for s in q["loc"]) and len(targets) < cfg["n_targets"]:
                     targets.append(q)
+            if gadget:
+                targets = [{"op": "eval", "loc": ["ZU"], "name": "u", "args": [3], "spell": "pos"}] + targets[:1]
+                cfg["step_size"] = ctx.rng("gadget").choice([1, 2])
             prng = ctx.rng("env")
             env = {"recalc": prng.random() < 0.25, "trace": prng.choice([0, 0, 0, 3, 50]),
                    "fault": prng.randrange(1000) if prng.random() < 0.25 else None}
